@@ -46,6 +46,8 @@ pub struct ConnObs {
     /// per request: event seq when its first byte was about to be written
     pub start_seq: Vec<Option<u64>>,
     pub rx_bytes: u64,
+    /// `AwaitRaw` steps that ran into their time limit
+    pub raw_waits_timed_out: u32,
     /// H2 only: per request, transport-level error text
     pub h2_err: Vec<Option<String>>,
     /// the final response attributed to each request (H1: the k-th final
@@ -72,6 +74,7 @@ impl ConnObs {
             sent_seq: vec![None; nreqs],
             start_seq: vec![None; nreqs],
             rx_bytes: 0,
+            raw_waits_timed_out: 0,
             h2_err: vec![None; nreqs],
             by_req: vec![None; nreqs],
         }
@@ -276,6 +279,25 @@ pub async fn run_conn(
                     tokio::select! {
                         _ = notify.notified() => {}
                         _ = tokio::time::sleep_until(deadline) => { break; }
+                    }
+                }
+            }
+            Step::AwaitRaw { n, max_ms } => {
+                let deadline = tokio::time::Instant::now() + ms(*max_ms);
+                loop {
+                    {
+                        let mut s = shared.lock().unwrap();
+                        if s.obs.raw.len() as u64 >= *n || s.done_reading {
+                            break;
+                        }
+                        if tokio::time::Instant::now() >= deadline {
+                            s.obs.raw_waits_timed_out += 1;
+                            break;
+                        }
+                    }
+                    tokio::select! {
+                        _ = notify.notified() => {}
+                        _ = tokio::time::sleep_until(deadline) => {}
                     }
                 }
             }
